@@ -335,7 +335,7 @@ func clonev(v []*big.Int) []*big.Int {
 }
 
 type hset struct {
-	name          string
+	name            string
 	chal, fold, h2f func() hash.Hash
 }
 
